@@ -1,4 +1,4 @@
-use super::decoder::LF;
+use super::decoder::{CR, CRLF, LF};
 use super::resp::{AdvanceIndex, ArrayIndex, BulkStrIndex, DataIndex, IndexedResp, RespIndex};
 use btoi::btoi;
 use bytes::BytesMut;
@@ -126,8 +126,13 @@ fn parse_bulk_str(buf: &[u8]) -> Result<(BulkStrIndex, usize), ParseError> {
         return Err(ParseError::NotEnoughData);
     }
 
-    let s = DataIndex(consumed, consumed + content_size);
-    Ok((BulkStrIndex::Str(s), consumed + content_size + 2))
+    let end = consumed + content_size;
+    if buf.get(end..end + 2) != Some(CRLF) {
+        return Err(ParseError::InvalidProtocol);
+    }
+
+    let s = DataIndex(consumed, end);
+    Ok((BulkStrIndex::Str(s), end + 2))
 }
 
 fn parse_len(buf: &[u8]) -> Result<(i64, usize), ParseError> {
@@ -145,9 +150,11 @@ fn parse_line(buf: &[u8]) -> Result<(DataIndex, usize), ParseError> {
     if lf_index == 0 {
         return Err(ParseError::InvalidProtocol);
     }
+    if buf.get(lf_index - 1) != Some(&CR) {
+        return Err(ParseError::InvalidProtocol);
+    }
 
     // s >= 2
-    // Just ignore the CR
     let line = DataIndex(0, lf_index + 1 - 2);
     Ok((line, lf_index + 1))
 }
